@@ -147,7 +147,7 @@ func NewRenderContext(env *Environment, context map[string]interface{}, engine *
 		}
 	}
 
-	vpool("ready", "ctx", ctx, len(ctx.context)-len(context))
+	vpool("ready", "ctx", ctx, len(ctx.context)-len(context)+vflag(ctx.sandboxed || ctx.parent != nil || ctx.extending))
 	return ctx
 }
 
@@ -500,7 +500,7 @@ func (ctx *RenderContext) Clone() *RenderContext {
 		newCtx.macros[name] = macro
 	}
 
-	vpool("ready", "ctx", newCtx, len(newCtx.context))
+	vpool("ready", "ctx", newCtx, len(newCtx.context)+vflag(newCtx.sandboxed != ctx.sandboxed || newCtx.parent != ctx || newCtx.extending))
 	return newCtx
 }
 
